@@ -163,6 +163,8 @@ def kms_classify(inp, out):
     return ks
 
 
+ALL_EXTRACT = [{"args": ["states"], "out": "States.lean"}, {"args": ["keytypes"], "out": "KeyTypes.lean"}]
+
 PROPS = {
     "C11": {
         "lean_files": ["AriesVerif/C11/Spec.lean", "AriesVerif/C11/Model.lean", "AriesVerif/C11/Props.lean",
@@ -240,6 +242,27 @@ PROPS = {
         "assumptions": ["revealed indexes are distinct (the property quantifies over subsets)",
                         "credential-level selective disclosure (statement <-> index mapping of bbsblssignatureproof2020) is "
                         "not driven by this check"],
+    },
+    "C04": {
+        "lean_files": ["AriesVerif/C04/Codec.lean", "AriesVerif/C04/Aead.lean", "AriesVerif/C04/Props.lean",
+                       "AriesVerif/C04/Table.lean", "AriesVerif/C04/Drv.lean"],
+        "lake_targets": ["AriesVerif"],
+        "classify": lambda inp, out: ["kind:" + inp.split("|")[0], "kt:" + (inp.split("|")[1] if inp[0] in "sa" else "-"),
+                                      "neg:" + inp.split("|")[-1].split(":")[0]] +
+                                     [w for w in out.split(" ") if w.startswith(("neg=", "honest=", "dec=", "back=", "padded="))],
+        "nontrivial": lambda inp, out: "neg=fail" in out or "neg=ok" in out or "back=same" in out,
+        "thorough_seeds": 2,
+        "rule": "signatures: 8 creatable signing key types (+ secp256k1 DER, refused) x created / imported keys x six message "
+                "shapes (empty, 1 byte, 64 KiB) x verification through the key's own public handle, through the exported and "
+                "re-imported public key of ANOTHER key manager, and through signature/verifier.PublicKeyVerifier x altered "
+                "input (other message, bit flip anywhere, truncation, appended byte, zero-padded P1363 halves, other key); MAC "
+                "likewise; AEAD: five key types x messages x associated data x 0-2 rotations after encrypting x altered "
+                "ciphertext / nonce / associated data / other key / nonce of another encryption / empty nonce; secp256k1 codecs "
+                "on scalars with leading zero bytes; non-trivial = an altered input was judged or a codec round trip ran",
+        "trusted_base": ["ideal primitives (a body opens only with its key, nonce and associated data; only produced signatures "
+                         "verify)", "Tink and Go crypto implementations", "DER codec checked by correspondence only (no Lean proof)"],
+        "assumptions": ["RSA key types are verify-side only in this framework and not driven here; BLS12-381 is C17",
+                        "AES-CBC+HMAC key types are not creatable through kms.Create and are not driven"],
     },
     "C14": {
         "lean_files": ["AriesVerif/C14/Model.lean", "AriesVerif/C14/Props.lean", "AriesVerif/C14/Drv.lean"],
